@@ -1,6 +1,8 @@
 import MosnVerif.Drive.Util
 import MosnVerif.Model.UpdatesSpec
 import MosnVerif.Model.DumpProto
+import MosnVerif.Model.ResourceUpd
+import MosnVerif.Model.DirHist
 /-!
 Driver for C12. Case line: `hist <op> …` (one token per operation, fields separated by `/`), implementation output:
 `<results> <liveRouters> <rebuiltRouters> <liveClusters> <rebuiltClusters>` (see harness/c12/c12.go).
@@ -312,10 +314,172 @@ def rlock (initTok aTok bTok : String) (impl : List String) : String :=
     s!"{if agree then "A" else "D"} {if spec then "S" else "V"} {m.1} {m.2.1} {m.2.2}"
   | _, _, _, _ => "E E bad-rlock-case"
 
+/-! `rsrc <op> …`: updates of one cluster's circuit-breaker thresholds mixed with host updates, removal and requests in flight
+(harness/c12/rsrc.go). Implementation output: one token `<res>|<live max/cur>|<host max/cur>|<rebuilt max>` per step. -/
+namespace Rsrc
+open MosnVerif.Model MosnVerif.Gen.ResourceUpd
+
+def parseMaxes (s : String) : Option Maxes :=
+  match (s.splitOn ",").mapM String.toNat? with
+  | some [a, b, c, d] => some ⟨a, b, c, d⟩
+  | _ => none
+
+def parseCurs (s : String) : Option ResourceUpd.Curs :=
+  match (s.splitOn ",").mapM String.toInt? with
+  | some [a, b, c, d] => some ⟨a, b, c, d⟩
+  | _ => none
+
+def parseRes (s : String) : Option ResourceUpd.Rsrc :=
+  if s == "c" then some .conn else if s == "p" then some .pend else if s == "q" then some .req else if s == "t" then some .retr else none
+
+def parseVia (s : String) : Option ResourceUpd.Via :=
+  match s.toUpper with
+  | "P" => some .primary
+  | "H0" => some (.andHost false)
+  | "H1" => some (.andHost true)
+  | _ => none
+
+def parseOp (tok : String) : Option ResourceUpd.Op :=
+  match tok.splitOn "/" with
+  | ["U", via, typ, cb] => do
+    let v ← parseVia via
+    let t ← typ.toNat?
+    let c ← if cb == "-" || cb == "_" then some [] else (cb.splitOn ";").mapM parseMaxes
+    pure (.update v ⟨t, c⟩)
+  | ["S", n] => if n == "0" then some (.setHosts false) else if n == "1" then some (.setHosts true) else none
+  | ["X"] => some .remove
+  | ["I", r] => (parseRes r).map .incr
+  | ["D", r] => (parseRes r).map .decr
+  | _ => none
+
+def parseRM (s : String) : Option ResourceUpd.RM :=
+  match s.splitOn "/" with
+  | [m, c] => do
+    let m ← parseMaxes m
+    let c ← parseCurs c
+    pure ⟨m, c⟩
+  | _ => none
+
+def parseObs (tok : String) : Option ResourceUpd.Obs :=
+  match tok.splitOn "|" with
+  | [res, live, host, reb] => do
+    let r ← if res == "ok" then some ResourceUpd.Res.ok else if res == "err" then some ResourceUpd.Res.err else if res == "absent" then some ResourceUpd.Res.absent else none
+    let l ← if live == "absent" then some none else (parseRM live).map some
+    let h ← if host == "-" then some none else (parseRM host).map some
+    let b ← if reb == "absent" then some none else (parseMaxes reb).map some
+    pure ⟨r, l, h, b⟩
+  | _ => none
+
+def renderMaxes (m : Maxes) : String := s!"{m.connections},{m.pendingRequests},{m.requests},{m.retries}"
+def renderRM (r : ResourceUpd.RM) : String :=
+  s!"{renderMaxes r.max}/{r.cur.connections},{r.cur.pendingRequests},{r.cur.requests},{r.cur.retries}"
+def renderObs (o : ResourceUpd.Obs) : String :=
+  let r := match o.res with | .ok => "ok" | .err => "err" | .absent => "absent"
+  let l := match o.live with | none => "absent" | some x => renderRM x
+  let h := match o.host with | none => "-" | some x => renderRM x
+  let b := match o.reb with | none => "absent" | some x => renderMaxes x
+  s!"{r}|{l}|{h}|{b}"
+
+def drive (opToks impl : List String) : String :=
+  if impl.any (fun t => (t.splitOn "|").head? == some "panic") then "D V operation-panicked" else
+  match opToks.mapM parseOp, impl.mapM parseObs with
+  | some ops, some iobs =>
+    let mobs := ResourceUpd.trace ResourceUpd.init ops
+    let mout := joinWith " " (mobs.map renderObs)
+    let agree := joinWith " " impl == mout
+    let spec := ResourceUpd.Spec.holds ops iobs
+    s!"{if agree then "A" else "D"} {if spec then "S" else "V"} {mout}"
+  | _, _ => "E E bad-rsrc-case"
+end Rsrc
+
+/-! `dirh <D|S> <op> …`: cluster / virtual-host histories with removals down to zero, a dump after every step into the same
+directories and a reload (harness/c12/dirhist.go). Implementation output: one token
+`<res>|<live clusters>|<reloaded clusters>|<live vhosts>|<reloaded vhosts>` per step. The model runs the REGENERATED statement
+lists (`Gen.DirDump`) and file-name operations (`Gen.ConfigDir`) on a directory that persists across the steps. -/
+namespace DirH
+open MosnVerif.Model MosnVerif.Model.DirHist
+
+def parseItem (s : String) : Option (String × Nat) :=
+  match s.splitOn ":" with
+  | [n, t] => t.toNat?.map (fun t => (n, t))
+  | _ => none
+
+def parseOp (tok : String) : Option Spec.HOp :=
+  match tok.splitOn "/" with
+  | ["C", n, t] => t.toNat?.map (fun t => .putCluster n t)
+  | ["X", n] => some (.delCluster n)
+  | ["V", vs] => (if vs == "-" then some [] else (vs.splitOn "+").mapM parseItem).map .setVhosts
+  | _ => none
+
+def parseList (s : String) : Option (List String) :=
+  if s == "-" then some [] else if s == "loaderr" || s == "absent" || s == "nil" then none else some (s.splitOn "+")
+
+def parseObs (tok : String) : Option Spec.HObs :=
+  match tok.splitOn "|" with
+  | [res, lc, rc, lv, rv] =>
+    if res != "ok" && res != "err" then none else
+    (parseList lc).map (fun l => ⟨res == "ok", l, parseList rc, parseList lv, parseList rv⟩)
+  | _ => none
+
+def renderItems (l : List Item) : String :=
+  if l.isEmpty then "-" else joinWith "+" (sortStrings (l.map (fun i => Spec.key i.name i.tag)))
+
+/-- routers built from an empty virtual-host list do not exist (`nil`) -/
+def renderVhosts (l : List Item) : String := if l.isEmpty then "nil" else renderItems l
+
+/-- mode P: both directories hold a file of an earlier run (`zz.json`: cluster c4 / virtual host v4, tag 9) -/
+def staleDir (n : String) : ConfigDir.Dir := [("zz.json".toUTF8.toList, .doc (Item.enc ⟨n, 9⟩))]
+
+structure St where
+  clusters : List Item := []
+  router : Option (List Item) := none
+  cdir : ConfigDir.Dir := []
+  rdir : ConfigDir.Dir := []
+
+def stepModel (dirMode : Bool) (s : St) (op : Spec.HOp) : St × String :=
+  let (s1, ok) : St × Bool := match op with
+    | .putCluster n t => ({ s with clusters := applyUpd Item.bytes s.clusters (.put ⟨n, t⟩) }, true)
+    | .delCluster n =>
+      if s.clusters.any (·.name == n) then ({ s with clusters := applyUpd Item.bytes s.clusters (.del n.toUTF8.toList) }, true)
+      else (s, false)
+    | .setVhosts vs =>
+      -- `NewRouters` refuses an empty virtual-host list: a NEW router is stored without tables, an existing one is left as it is
+      if vs.isEmpty then (if s.router.isNone then ({ s with router := some [] }, true) else (s, false))
+      else if (dedup (vs.map (·.1))).length == vs.length then ({ s with router := some (vs.map (fun v => ⟨v.1, v.2⟩)) }, true) else (s, false)
+  -- the dump after the step (every step dumps, refused ones too), then the reload
+  let (cd, rc) := dumpReload dirMode Gen.DirDump.clusterDumpSteps Gen.ConfigDir.clusterNameOps s1.cdir s1.clusters
+  let (rd, rv) : ConfigDir.Dir × String := match s1.router with
+    | none => (s1.rdir, "absent")
+    | some vs =>
+      let (rd, l) := dumpReload dirMode Gen.DirDump.vhostDumpSteps Gen.ConfigDir.vhostNameOps s1.rdir vs
+      (rd, match l with | some l => renderVhosts l | none => "loaderr")
+  let lv := match s1.router with | none => "absent" | some vs => renderVhosts vs
+  ({ s1 with cdir := cd, rdir := rd },
+   s!"{okTok ok}|{renderItems s1.clusters}|{match rc with | some l => renderItems l | none => "loaderr"}|{lv}|{rv}")
+
+def traceModel (dirMode : Bool) : St → List Spec.HOp → List String
+  | _, [] => []
+  | s, op :: r => let (s', o) := stepModel dirMode s op; o :: traceModel dirMode s' r
+
+def drive (modeTok : String) (opToks impl : List String) : String :=
+  if impl.any (fun t => (t.splitOn "|").head? == some "panic") then "D V operation-panicked" else
+  match opToks.mapM parseOp, impl.mapM parseObs with
+  | some ops, some iobs =>
+    if modeTok != "D" && modeTok != "S" && modeTok != "P" then "E E bad-dirh-mode" else
+    let s0 : St := if modeTok == "P" then { cdir := staleDir "c4", rdir := staleDir "v4" } else {}
+    let mout := joinWith " " (traceModel (modeTok != "S") s0 ops)
+    let agree := joinWith " " impl == mout
+    let spec := Spec.holds ops iobs
+    s!"{if agree then "A" else "D"} {if spec then "S" else "V"} {mout}"
+  | _, _ => "E E bad-dirh-case"
+end DirH
+
 def run (caseToks impl : List String) : String :=
   match caseToks with
   | "hist" :: ops => hist ops impl
   | "mode" :: ops => mode ops impl
+  | "rsrc" :: ops => Rsrc.drive ops impl
+  | "dirh" :: m :: ops => DirH.drive m ops impl
   | ["rlock", i, a, b, _] => rlock i a b impl
   | "dump" :: items => Dump.drive items impl
   | ["rm", _, hs, as] => rm hs as impl
